@@ -67,6 +67,7 @@ func c06Check(ps *protoServer, tn string, eio string, sessionNo int, interval, t
 	verif.Assert(verif.JSONInt(b, "pingInterval") == int64(interval/time.Millisecond), "ping interval in milliseconds")
 	verif.Assert(verif.JSONInt(b, "pingTimeout") == int64(timeout/time.Millisecond), "ping timeout in milliseconds")
 	verif.Assert(verif.JSONInt(b, "maxPayload") == maxPayload, "configured maximum payload")
+	verif.Assert(verif.JSONIsList(b, "upgrades"), "the open packet always carries an upgrades list (possibly empty)")
 	ups := verif.JSONStrings(b, "upgrades")
 	wantW := tn == transports.POLLING && allowUp && enW
 	wantT := tn == transports.POLLING && allowUp && enT
